@@ -29,8 +29,8 @@ try:
 finally:
     subprocess.run(["git", "-C", "/repo", "reset", "-q", "--hard", "HEAD"])
     subprocess.run(["git", "-C", "/repo", "status", "--porcelain", "--untracked-files=no"])
-    # evidence files must describe the real tree: rewrite them
-    for p in props:
+    # evidence files must describe the real tree: rewrite them (a batch driver sets VP_NO_REWRITE and does it once at the end)
+    for p in ([] if os.environ.get("VP_NO_REWRITE") else props):
         subprocess.run([os.path.join(VERIF, "bin", "vp"), "check", p], capture_output=True, text=True, cwd=VERIF)
 print("CAUGHT" if caught else "MISSED")
 sys.exit(0 if caught else 1)
